@@ -4,7 +4,7 @@ from checks import rtcommon
 
 def run(ctx):
     args = (["--n", "500", "--maxdim", "64", "--exh", "1"] if ctx.quick
-            else ["--n", "24000", "--maxdim", "600", "--exh", "2"])
+            else ["--n", "8000", "--maxdim", "600", "--exh", "2"])
     return rtcommon.run_contract(
         ctx, "c19", args, class_keys=("c", "p", "levels", "layers", "tw", "th"),
         rule="scenario = reversible multi-tile Encode/Decode; grid part: every (W,H,TW,TH) with W,H up to 6 (quick: a quarter of "
